@@ -192,7 +192,16 @@ let handle kind a =
                   fmt_data fs ^ (if e then "!Err" else "") ^ " " ^
                   String.concat "," (List.map (fun t ->
                     match data_get (fs, e) t with
-                    | None -> "-" | Some (Err _) -> "Err" | Some (Ok x) -> fmt_val x) tags)) ])))
+                    | None -> "-" | Some (Err _) -> "Err" | Some (Ok x) -> fmt_val x) tags));
+             (* Cigar::len / is_empty *)
+             (match lzp_cigar_len (bytes_of_hex a.(0)) with
+              | None -> "P"
+              | Some (n, e) -> dec_of_n n ^ ":" ^ (if e then "1" else "0"));
+             (* RecordBuf::try_from_alignment_record *)
+             (match lazy_convert (bytes_of_hex a.(0)) with
+              | None -> "P"
+              | Some (Err _) -> "Err"
+              | Some (Ok r) -> short_or_digest (canon r)) ])))
   | "sub" ->
       let sq = bytes_of_hex a.(0) in
       let n = List.length sq in
